@@ -62,7 +62,7 @@ def greedyb (env : Env) : Nat → Ty → Bool
     | .either l r => greedyb env fuel l || greedyb env fuel r
     | .eitherRef t => greedyb env fuel t
     | .prim p => p.greedy
-    | .cell | .opaque _ | .vmStack _ | .dict _ _ => true
+    | .cell | .opaque _ | .vmStack _ | .dict _ _ | .chain _ => true
     | _ => false
 def greedyFields (env : Env) : Nat → Fields → Bool
   | 0, _ => true
@@ -138,6 +138,7 @@ def wfb (env : Env) : Ty → Bool
   | .vmStack _ => false                  -- decode returns the reversed list: see `vmstack_convention`
   | .dictE k t => (keyWidth k).isSome && wfb env k && wfb env t
   | .dict k t => (keyWidth k).isSome && wfb env k && wfb env t
+  | .chain _ => false                    -- takes the next reference if there is one: outside the greedy/non-greedy split
   | .encErr _ => true
   | .opaque _ => false
 def wfFields (env : Env) : Fields → Bool
@@ -324,6 +325,9 @@ def inDom (env : Env) : Nat → Ty → Val → Bool
         (fun x => encode env fuel k x Builder.empty) (fun x => encode env fuel t x Builder.empty) v
     | .dict k t => dictDom (keyWidth k) (fun x => inDom env fuel k x) (fun x => inDom env fuel t x)
         (fun x => encode env fuel k x Builder.empty) (fun x => encode env fuel t x Builder.empty) v && !v.isNil
+    | .chain e => (match v with
+      | .cons x rest => inDom env fuel e x && (rest.isNil || inDom env fuel (.chain e) rest)
+      | _ => false)
     | .encErr _ => true
     | _ => false
 /-- domain of one struct field (mirrors the fuel use of `encodeField`) -/
